@@ -218,6 +218,18 @@ func c04(r *core.Report) {
 		r.Check(ok, "C04-P2PKE", core.FnName(tell)+" sends through getFullAddr", p.Pos(tell.Pos()), "the payload is sent only on the channel getFullAddr returned without error", "Tell sends on a channel that did not pass the identity check")
 	}
 
+	// the identity p2pkeswarm reports is Channel.RemoteKey(), i.e. the remote key of a session
+	// that became usable: it is authenticated only if every path to a usable session state
+	// passed the role's verification transitions (shared with C03-AUTH-PATH)
+	r.Rule("C04-P2PKE-AUTH", "every usable p2pke session state was reached through the role's signature verifications", 4)
+	if ts := buildTypestate(r); ts != nil {
+		if ts.err != nil {
+			r.Fail("typestate extraction failed: %v", ts.err)
+		} else {
+			ts.checkAuthPath("C04-P2PKE-AUTH")
+		}
+	}
+
 	// ---------------- quicswarm
 	r.Rule("C04-QUIC", "quicswarm: identity from the peer certificate's key; dial-side identity check; allow function on inbound sessions", 5)
 	rafs := needFn(r, "s/quicswarm", "Swarm.remoteAddrFromSession")
